@@ -98,6 +98,12 @@ add("C11", "vp_sig (std) + vp_nostd (dasp_sample/frame/ring_buffer/rms with defa
     "Trusted: f64 reference arithmetic on exact amplitudes (its own error is added to the bound). The general-regime bound grows with the number of pushes since the last reset; the exact regime compensates.",
     "DESIGN.md §4 C11")
 
+add("C19", "vp_sig",
+    "bounded-exhaustive enumeration (rectifiers) + proptest histories (envelope) against exact and interval oracles; one open known finding excluded by construction",
+    "Rectifiers: every value of the 8/16-bit formats (minimum excluded, as the statement's premise), boundary sets and random values of the other ten formats, 1..=4 channels, functions and Rectifier impls: |signed amplitude|, max(s, eq), min(s, eq) exactly. Envelope: histories of up to 400 frames over 7 frame types x peak (three rectifiers) and rms (window 1..=32) detection x attack/release from {0, 1e-3, 0.5, 1, 10, 1e4, 3.4e7, 1e9, random} with set_attack_frames/set_release_frames at random steps, directly and through the detect_envelope adaptor: every output channel inside d + [g_lo, g_hi](l - d) with g = exp(-1/frames), between the previous envelope and the detected value, equal to the detected value for a zero time constant, prefix before the first parameter change identical to the unchanged run, adaptor bit-identical to the detector. Known finding F8 (i32 frames, gain rounding to 1.0, previous envelope at full scale -> overflow) is excluded by construction, counted, and reproduced by one deterministic probe that prints the KNOWN-FINDING line; any other failure is a violation.",
+    "Trusted: f64 exp for the reference gain (1e-5 relative allowance for the f32 powf), a second instance of the detector stage to observe d.",
+    "DESIGN.md §4 C19, §5 F8")
+
 PENDING_REASON = "check not yet built in this round (design in DESIGN.md §4); nothing is claimed for it until its check is registered"
 
 def main():
